@@ -180,9 +180,17 @@ def run(ctx):
     # boolean operations (what `UnknownOperationResolver(resolve_to=BoolOperation)` produces) are neither AND-like
     # nor OR-like: an AND / OR directly under one is not a mix, whatever the default operator (seeded C07-E)
     cs += cases(ctx, n // 3, mixes=True, misuse=0.05, bool_ops=True)[max(60, (n // 3) // 4):]
-    for schema, cfg, d, r, raw in run_cases(ctx, cs):
+    I = common.impl()
+    hist = trees.SharedObjects(ctx, ctx.rng, "ElasticsearchQueryBuilder", known_params={"tree"})
+    for ci, (schema, cfg, d, r, raw) in enumerate(run_cases(ctx, cs)):
         got = r["err"][0] if "err" in r else None
         exp = expected(d, cfg)
+        if ci % 3 == 0 and (got is not None or ci % 9 == 0):
+            # one builder per configuration lives on: a query it refuses is refused again when it comes back (a retry,
+            # another query on the same field), a query it translates after a refusal is translated as by a fresh
+            # builder (seeded C07-H: a memo of the fields already examined, filled before the test that raises)
+            hist.check(repr(cfg), lambda: I.es.ElasticsearchQueryBuilder(**es.python_spelling(cfg)),
+                       lambda bb, t: es.build(cfg, t, bb)[0], d, {"cfg": cfg, "tree": d}, deep=0.05)
         nontrivial = any(n["c"].endswith("Operation") or n["c"] == "SearchField" for _, n in common.tree_nodes(d))
         ctx.case((repr(cfg), repr(common.strip_tree(d))), nontrivial=nontrivial,
                  sample={"query": str(common.load_tree(d)), "cfg": cfg, "outcome": got or "translated"}
